@@ -13,6 +13,7 @@
 From Coq Require Import String Ascii List Bool Arith ZArith.
 Import ListNotations.
 Require Import PyBase PyStr Lex Symbols ParseEq ParseModel GLex GNorm Graph GraphFacts GraphTheorems GraphEvalFacts GraphEvalWf GraphExamples.
+Require Import Denorm GraphParseFacts GraphParseExamples LayoutExamples.
 Require Import Solver Eval EvalFacts.
 Open Scope string_scope.
 
@@ -155,6 +156,28 @@ Theorem C20_edge_is_read : forall (num : Type) (vname : nat -> string) (show : n
        exists q : nat, In (Acc false x (t + k)%Z (Some q)) lg).
 Proof. exact edge_is_read. Qed.
 Print Assumptions C20_edge_is_read.
+
+(* ---- from the parser model to the graph, inside the model ---- *)
+(* for every statement  NAME[k] = rhs  written in de-normalised form (Denorm.denorm_text, any index-bracket layout `lay`) whose normalised equation q satisfies
+   the decidable conditions dq_ok (see Props/C14.v) and neq_wf, and which does not use NAME as a function: the symbols
+   parse_equation produces carry exactly one equation, and symbols_to_graph builds graph_of [q] from them *)
+Theorem C20_reparsed_graph : forall (lay : layout) (y : string) (ky : Z) (ws r : list ntok) (syms : list symbol),
+  dq_ok lay (mkNeq (NTerm y (IInt ky) :: ws) r) = true -> neq_wf (mkNeq (NTerm y (IInt ky) :: ws) r) = true ->
+  no_function_named y r = true ->
+  parse_equation_M (denorm_text lay (mkNeq (NTerm y (IInt ky) :: ws) r)) = POk syms ->
+  symbols_to_graph_M syms = Ret (graph_of [mkNeq (NTerm y (IInt ky) :: ws) r]).
+Proof. exact reparsed_graph. Qed.
+Print Assumptions C20_reparsed_graph.
+
+Theorem C20_reparsed_graph_satisfiable :
+  dq_ok canon ex_fix_q = true /\ neq_wf ex_fix_q = true /\ no_function_named "C" (nrhs ex_fix_q) = true /\
+  exists syms, parse_equation_M (denorm_text canon ex_fix_q) = POk syms /\
+    match symbols_to_graph_M syms with
+    | Ret g => filter varlike_id (in_edges g "C[t+1]") = ["alpha_1[t]"; "YD[t+2]"; "H[t-1]"; "X['2000']"]
+    | Raise _ => False
+    end.
+Proof. exact ex_reparse_hyps. Qed.
+Print Assumptions C20_reparsed_graph_satisfiable.
 
 (* ---- hypotheses are satisfiable; what does not hold of the code as it is ---- *)
 Theorem C20_hypotheses_satisfiable :
